@@ -44,7 +44,14 @@ class Ctx:
         self.seed = seed
         self.t0 = time.time()
         base = "/dev/shm" if os.path.isdir("/dev/shm") and os.access("/dev/shm", os.W_OK) else None
+        _sweep_stale(base)
         self.scratch = tempfile.mkdtemp(prefix="verif-%s-" % prop, dir=base)
+        # TLC's metadir (state queue and fingerprints spilled to disk) can reach tens of GB in a
+        # design-only run: it lives on the real disk, never in /dev/shm (= RAM)
+        self.bigscratch = tempfile.mkdtemp(prefix="verif-meta-%s-" % prop)
+        for d in (self.scratch, self.bigscratch):
+            with open(os.path.join(d, ".pid"), "w") as fh:
+                fh.write(str(os.getpid()))
         self.notes = []
         self.known = []       # known findings reproduced in this run
         self.violations = []  # (signature, replay path)
@@ -65,6 +72,28 @@ class Ctx:
 
     def cleanup(self):
         shutil.rmtree(self.scratch, ignore_errors=True)
+        shutil.rmtree(self.bigscratch, ignore_errors=True)
+
+
+def _sweep_stale(base):
+    """Remove scratch directories left behind by checks that were killed (their .pid is dead)."""
+    for root in {base, tempfile.gettempdir()}:
+        if not root:
+            continue
+        try:
+            names = os.listdir(root)
+        except OSError:
+            continue
+        for n in names:
+            if not n.startswith("verif-"):
+                continue
+            d = os.path.join(root, n)
+            try:
+                pid = int(open(os.path.join(d, ".pid")).read().strip())
+            except (OSError, ValueError):
+                continue
+            if not os.path.exists("/proc/%d" % pid):
+                shutil.rmtree(d, ignore_errors=True)
 
 
 # ---------------------------------------------------------------- TLC
@@ -117,7 +146,7 @@ def run_tlc(ctx, module, cfg, workers=None, timeout=600, on_scn=None, extra=None
         else:
             with open(os.path.join(work, name), "w") as fh:
                 fh.write(src)
-    meta = os.path.join(work, "md")
+    meta = os.path.join(ctx.bigscratch, os.path.basename(work) + "-md")
     cmd = ["timeout", "-k", "10", str(timeout), _tlc_cmd(), "-workers", str(workers or NCPU), "-metadir", meta,
            "-config", os.path.basename(cfg), "-noGenerateSpecTE"]
     if simulate:
